@@ -35,7 +35,7 @@ TRUSTED_BASE = [
     "np.argmin, np.ravel_multi_index are list definitions validated by the kernel cases",
     "Lib/Shape.v, Model/COO.v, Model/GCXS.v (den, canonical form, gcxs_wfb) as the meaning of the formats",
     "tools/sitegen/convert.py (index-dtype bounds of _from_coo/_transpose -> Gen/S_convert.v) and tools/sitegen/scipyconv.py "
-    "(_canonical_scipy's condition, axis choice and constructor flags at the scipy boundary -> Gen/S_scipy.v): AST extractors, fail-closed",
+    "(_canonical_scipy's condition, axis choice and constructor flags at the scipy boundary -> Gen/S_scipyconv.v): AST extractors, fail-closed",
     "Model/ScipyConv.v as a description of scipy's csr/csc arrays, has_canonical_format and sum_duplicates (by its result), "
     "compared with real scipy on canonical and non-canonical input by the construction stream",
     "scipy.sparse itself (format changes inside scipy are not modelled; a scipy hop is compared with the "
@@ -263,12 +263,18 @@ def impl_make(case):
         elif k == "scipy_coo":
             m = sps.coo_matrix((np.array(case["data"], dtype=dt), (np.array(case["row"], dtype=np.int32), np.array(case["col"], dtype=np.int32))),
                                shape=tuple(case["shape"]))
+            snap = _scipy_snapshot(m)
             r = _from_scipy(m, case["fmt"], case.get("via", 0))
+            out = vlib.plain(r)
+            out["operand_modified"] = _scipy_changed(m, snap)
+            return out
         elif k == "scipy_cs":
             cls = sps.csr_matrix if case["axis"] == 0 else sps.csc_matrix
             m = cls((np.array(case["data"], dtype=dt), np.array(case["indices"], dtype=np.int32), np.array(case["indptr"], dtype=np.int32)),
                     shape=tuple(case["shape"]))
+            snap = _scipy_snapshot(m)
             r = _from_scipy(m, case["fmt"], case.get("via", 0))
+            modified = _scipy_changed(m, snap)
             probe = None
             if hasattr(r, "todense"):
                 # element-wise read-back through indexing, against scipy's own meaning
@@ -277,12 +283,32 @@ def impl_make(case):
                 probe = bad[:3]
             out = vlib.plain(r)
             out["getitem_mismatch"] = probe
+            out["operand_modified"] = modified
             return out
         else:
             raise AssertionError(k)
         return vlib.plain(r)
     except Exception as ex:  # noqa: BLE001
         return vlib.plain(ex)
+
+
+def _scipy_snapshot(m):
+    """copies of the arrays a scipy matrix is made of (the conversions must leave the operand alone)"""
+    names = ("row", "col", "data") if m.format == "coo" else ("data", "indices", "indptr")
+    return {n: getattr(m, n).copy() for n in names} | {"nnz": int(m.nnz), "shape": tuple(m.shape)}
+
+
+def _scipy_changed(m, snap):
+    import numpy as np
+    bad = []
+    for n, a in snap.items():
+        b = getattr(m, n)
+        if isinstance(a, np.ndarray):
+            if not (a.shape == b.shape and a.dtype == b.dtype and np.array_equal(a, b)):
+                bad.append(f"{n}: {a.tolist()} -> {np.asarray(b).tolist()}")
+        elif a != (tuple(b) if n == "shape" else int(b)):
+            bad.append(f"{n}: {a} -> {b}")
+    return bad
 
 
 def _item(r, i, j):
@@ -554,6 +580,24 @@ def gen_chain_cases(rng, tier, n_cases):
                 else:
                     h2 = {"fmt": nxt, "via": rng.randint(0, 3)}
                 cases.append({"spec": spec, "hops": [h1, h2, {"fmt": "coo", "via": 0}]})
+    # re-compression between EVERY ordered pair of compressed-axes choices of 3-d and 4-d arrays whose extents are
+    # all > 1 and whose pattern is dense enough that any permutation of positions shows (non-contiguous choices such
+    # as (0, 2), (0, 3), (0, 1, 3) included), through each API path of the second hop, then on to COO / DOK / dense
+    for sh in ([2, 3, 2], [3, 2, 4], [2, 2, 3, 2]):
+        subs = all_axes_subsets(len(sh))
+        for ax1 in subs:
+            for ax2 in subs:
+                if ax1 == ax2:
+                    continue
+                if tier == "quick" and len(sh) == 4 and rng.random() < 0.5:
+                    continue
+                dtype = rng.choice(["int64", "float64"])
+                spec = vlib.gen_array_spec(rng, shape=sh, fills=DTYPES[dtype]["fills"][:2], values=DTYPES[dtype]["values"],
+                                           density=rng.choice([0.6, 0.85, 1.0]))
+                spec["dtype"] = dtype
+                cases.append({"spec": spec, "hops": [{"fmt": "gcxs", "axes": ax1, "via": rng.randint(0, 3)},
+                                                     {"fmt": "gcxs", "axes": ax2, "via": rng.randint(0, 3)},
+                                                     {"fmt": rng.choice(["coo", "dok", "dense"]), "via": 0}]})
     # 0-d with and without a stored element, through every format
     for dtype in ("int64", "float64"):
         for dens in (0.0, 1.0):
@@ -824,6 +868,14 @@ def gen_kernel_cases(rng, tier):
 
 def gen_indep_cases(rng, tier, n):
     cases = []
+    # directed: a reduction / transpose of a dense-ish 3-d and 4-d array held under EVERY compressed-axes choice
+    # (GCXS reductions re-compress internally)
+    for sh in ([2, 3, 2], [2, 2, 3, 2]):
+        for axis in range(len(sh)):
+            spec = vlib.gen_array_spec(rng, shape=sh, fills=(0,), values=DTYPES["int64"]["values"], density=0.85)
+            spec["dtype"] = "int64"
+            cases.append({"spec": spec, "op": {"k": "sum", "axis": axis},
+                          "reps": ["coo", "gcxs"] + [list(a) for a in all_axes_subsets(len(sh))]})
     for _ in range(n):
         dtype = rng.choice(["int64", "float64"])
         nd = rng.choice([1, 2, 2, 3, 3, 4])
@@ -992,6 +1044,12 @@ def campaign(build, tier, seed, report, budget=1):
         viol.append(dict(property="C05", op="construct:" + c["k"], kind=kind, clause=clause, code=code, what=what, case=c, impl=r,
                          replay_py=replay_line("impl_make", c)))
 
+    # the scipy operand of a conversion is never modified (snapshot of its arrays before / after)
+    for c, r in zip(mc, mres, strict=True):
+        if c["k"] in ("scipy_cs", "scipy_coo") and r.get("operand_modified"):
+            viol.append(dict(property="C05", op="construct:" + c["k"] + ":operand", kind="value", clause=None, code=10,
+                             what="the scipy matrix given to the conversion was modified in place: " + "; ".join(r["operand_modified"])[:300],
+                             case=c, impl=r, replay_py=replay_line("impl_make", c)))
     # element-wise read-back x[i, j] of everything built from a csr/csc matrix, against scipy's own meaning
     for c, r in zip(mc, mres, strict=True):
         if c["k"] == "scipy_cs" and r.get("getitem_mismatch"):
